@@ -73,31 +73,31 @@ func (e seqEnv) wellFormedFor(methodKind string) bool {
 func c12Alphabet() []seqEnv {
 	u, s := mUnary, mBidi
 	base := []seqEnv{
-		{Hdr: true, Method: u, Dst: "srv", Body: true},                             // valid unary
-		{Hdr: true, Method: u, Dst: "srv", Body: true, Meta: 1},                    // valid unary with metadata
-		{Hdr: true, Method: u, Dst: "srv"},                                         // unary without body
-		{Hdr: true, Method: u, Dst: "srv", Body: true, Meta: 2},                    // unary, undecodable metadata
-		{Hdr: true, Method: u, Dst: "other", Body: true},                           // wrong destination
-		{Hdr: true, Method: "verif.Echo/Unary", Dst: "srv", Body: true},            // no leading slash
-		{Hdr: false, Body: true},                                                   // no header
-		{Hdr: true, Method: "noslash", Dst: "srv", Body: true},                     // unparsable method
-		{Hdr: true, Method: "", Dst: "srv"},                                        // empty method
-		{Hdr: true, Method: "/nope.Svc/X", Dst: "srv", Body: true},                 // unknown service
-		{Hdr: true, Method: "/verif.Echo/Nope", Dst: "srv", Body: true},            // unknown method
-		{Hdr: true, Method: s, Dst: "srv"},                                         // stream open
-		{Hdr: true, Method: s, Dst: "srv", Meta: 1},                                // stream open with metadata
-		{Hdr: true, Method: s, Dst: "srv", Meta: 2},                                // stream open, undecodable metadata
-		{Hdr: true, Method: s, Dst: "srv", Body: true},                             // stream body
-		{Hdr: true, Method: s, Dst: "srv", Trailer: true},                          // stream trailer (half close)
-		{Hdr: true, Method: s, Dst: "srv", Reset: 1},                               // reset
-		{Hdr: true, Method: s, Dst: "srv", Reset: 2},                               // reset of another type
-		{Hdr: true, Method: s, Dst: "srv", Body: true, Trailer: true},              // body + trailer
-		{Hdr: true, Method: s, Dst: "srv", Body: true, Reset: 1},                   // body + reset
-		{Hdr: true, Method: s, Dst: "other"},                                       // stream open, wrong destination
-		{Hdr: true, Method: mSrvStream, Dst: "srv"},                                // another stream method
-		{Hdr: true, Method: mCliStream, Dst: "srv", Body: true},                    // body on another stream method
-		{Hdr: true, Method: u, Dst: "srv", Body: true, Trailer: true, Reset: 1},    // unary with everything
-		{Hdr: true, Method: s, Dst: "srv", Trailer: true, Reset: 2, Meta: 2},       // odd mix
+		{Hdr: true, Method: u, Dst: "srv", Body: true},                          // valid unary
+		{Hdr: true, Method: u, Dst: "srv", Body: true, Meta: 1},                 // valid unary with metadata
+		{Hdr: true, Method: u, Dst: "srv"},                                      // unary without body
+		{Hdr: true, Method: u, Dst: "srv", Body: true, Meta: 2},                 // unary, undecodable metadata
+		{Hdr: true, Method: u, Dst: "other", Body: true},                        // wrong destination
+		{Hdr: true, Method: "verif.Echo/Unary", Dst: "srv", Body: true},         // no leading slash
+		{Hdr: false, Body: true},                                                // no header
+		{Hdr: true, Method: "noslash", Dst: "srv", Body: true},                  // unparsable method
+		{Hdr: true, Method: "", Dst: "srv"},                                     // empty method
+		{Hdr: true, Method: "/nope.Svc/X", Dst: "srv", Body: true},              // unknown service
+		{Hdr: true, Method: "/verif.Echo/Nope", Dst: "srv", Body: true},         // unknown method
+		{Hdr: true, Method: s, Dst: "srv"},                                      // stream open
+		{Hdr: true, Method: s, Dst: "srv", Meta: 1},                             // stream open with metadata
+		{Hdr: true, Method: s, Dst: "srv", Meta: 2},                             // stream open, undecodable metadata
+		{Hdr: true, Method: s, Dst: "srv", Body: true},                          // stream body
+		{Hdr: true, Method: s, Dst: "srv", Trailer: true},                       // stream trailer (half close)
+		{Hdr: true, Method: s, Dst: "srv", Reset: 1},                            // reset
+		{Hdr: true, Method: s, Dst: "srv", Reset: 2},                            // reset of another type
+		{Hdr: true, Method: s, Dst: "srv", Body: true, Trailer: true},           // body + trailer
+		{Hdr: true, Method: s, Dst: "srv", Body: true, Reset: 1},                // body + reset
+		{Hdr: true, Method: s, Dst: "other"},                                    // stream open, wrong destination
+		{Hdr: true, Method: mSrvStream, Dst: "srv"},                             // another stream method
+		{Hdr: true, Method: mCliStream, Dst: "srv", Body: true},                 // body on another stream method
+		{Hdr: true, Method: u, Dst: "srv", Body: true, Trailer: true, Reset: 1}, // unary with everything
+		{Hdr: true, Method: s, Dst: "srv", Trailer: true, Reset: 2, Meta: 2},    // odd mix
 	}
 	var out []seqEnv
 	for _, id := range []uint64{1, 2} {
